@@ -190,7 +190,16 @@ def _parts(ctx: Context, rule: str):
     p.key_t = _self_attr(p.selfp, "_broadcast_decryption_key")
     p.desc_t = _self_attr(p.selfp, "description")
     p.last_t = ("attr", p.desc_t, "state_num")  # the last accepted state number
-    dec = [(n, c) for n in cfg.nodes for c in ctx.calls(n) if DECRYPT in ctx.callee_names(f, c)]
+    dec = []
+    for n in cfg.nodes:
+        for c in ctx.calls(n):
+            if DECRYPT in ctx.callee_names(f, c):
+                dec.append((n, c))
+            elif isinstance(c.func, ast.Attribute) and T.of(cfg, n, c.func.value) == p.key_t:
+                # the resolver does not follow a local alias of self._broadcast_decryption_key: resolve through the term
+                m = ctx.prog.lookup_method(KEYCLS, c.func.attr)
+                if m is not None and m.qualname == DECRYPT:
+                    dec.append((n, c))
     if len(dec) != 1:
         ck.unknown(rule, f"_async_notification: expected one call of BroadcastDecryptionKey.decrypt, found {len(dec)}", f.loc())
         return None
@@ -378,6 +387,8 @@ def _g1(ctx: Context) -> None:
     # the value stored is the verified GSN (or, equal on that edge, the candidate)
     inner_terms = [b for _n, b in p.inner]
     for sn, val in p.stores:
+        if not inner_terms:
+            break  # the missing GSN gate is reported above; there is no verified GSN to compare the stored value with
         vt = T.of(cfg, sn, val)
         ok = vt == p.cand or vt in inner_terms
         _judge(ck, "C18.G1", ok, [vt], "the state number is advanced to the verified GSN of this notification",
@@ -390,7 +401,7 @@ def _g1(ctx: Context) -> None:
     for ln, _c in p.listeners:
         ctx.must_pass("C18.G1", cfg, ln, "state-number update [done]", store_out, start=p.head.id, avoid_nodes=[p.head.id],
                       desc="listeners are called only after the last accepted state number was advanced (a replay of the same notification is then stale)")
-    ck.require_min("C18.G1", "acceptance sites (state-number update, listener call)", n_sites, 2)
+    ck.require_min("C18.G1", "listener calls gated", len(p.listeners), 1)
 
 
 # ---------------------------------------------------------------------- T1
@@ -407,6 +418,7 @@ def _t1(ctx: Context) -> None:
     base = strip_sites(p.last_t)
     n_cand = 0
     max_off = None
+    unanchored = False
     for w in p.window:
         bounds = [(w[1], w[2])] if w[0] == "one" else [(w[1], w[5]), (w[2], w[6])]
         anchored = True
@@ -420,6 +432,7 @@ def _t1(ctx: Context) -> None:
                                 f"_async_notification: candidate {show(term, 80)} is not relative to description.state_num, the last "
                                 "accepted state number: an old notification can match it", loc)
         if not anchored:
+            unanchored = True
             continue
         if w[0] == "one":
             n_cand += 1
@@ -470,7 +483,14 @@ def _t1(ctx: Context) -> None:
                  f"{ctx.fkey(f)}:loop-continues-after-update",
                  "_async_notification: the candidate loop continues after description.state_num was advanced (the window is then re-anchored mid-way)",
                  ctx.loc(f, sn), cfg.render_path(back) if back else None)
-    ck.require_min("C18.T1", "candidates in the window", n_cand, 3)
+    swaps = [n for n in cfg.nodes if n.kind == "stmt" and isinstance(n.ast, (ast.Assign, ast.AnnAssign, ast.AugAssign))
+             for tg in (n.ast.targets if isinstance(n.ast, ast.Assign) else [n.ast.target])
+             if isinstance(tg, ast.Attribute) and tg.attr == "description" and ctx.terms.of(cfg, n, tg.value) == ("param", p.selfp)]
+    ck.check("C18.T1", not swaps, "the description object (holder of the last accepted number) is not replaced inside the handler",
+             f"{ctx.fkey(f)}:description-replaced", "_async_notification replaces self.description: the tests and the update then speak about different objects",
+             ctx.loc(f, swaps[0]) if swaps else f.loc())
+    if not unanchored:
+        ck.require_min("C18.T1", "candidates in the window", n_cand, 3)
 
 
 # ---------------------------------------------------------------------- T2
@@ -487,6 +507,27 @@ def _nonce_counter(t):
                 return q[2][0]
             if q[1] == ("glob", "struct.pack") and len(q[2]) == 2 and q[2][0] == ("const", "<Q"):
                 return q[2][1]
+    return None
+
+
+def _tag_comparison(t):
+    """Recognised forms of "the computed tag begins with the received bytes" -> (computed, expected, passing label)."""
+    def head(x):  # computed[:4] / computed[0:4] -> computed
+        s = _slice_of(x) if x[0] == "sub" else None
+        return s[0] if s is not None and (s[1], s[2]) == (0, SPEC.TAG_BYTES) else None
+
+    if t[0] == "call" and t[1][0] == "attr" and t[1][2] == "startswith" and len(t[2]) == 1 and not t[3]:
+        return t[1][1], t[2][0], "T"
+    pair, lab = None, "T"
+    if t[0] == "cmp" and len(t[1]) == 1 and t[1][0] in ("Eq", "NotEq"):
+        pair, lab = t[2], "T" if t[1][0] == "Eq" else "F"
+    elif t[0] == "call" and t[1] == ("glob", "hmac.compare_digest") and len(t[2]) == 2 and not t[3]:
+        pair = t[2]
+    if pair is not None:
+        for a, b in ((pair[0], pair[1]), (pair[1], pair[0])):
+            h = head(a)
+            if h is not None and contains(h, lambda s: s[0] == "call" and s[1][0] == "attr" and s[1][2] == "create_tag"):
+                return h, b, lab
     return None
 
 
@@ -520,16 +561,17 @@ def _open_roles(ctx: Context):
     roles = {}
     for n, t in tests:
         loc = ctx.loc(f, n)
-        if t[0] == "cmp" or (t[0] == "call" and t[1][0] == "attr" and t[1][2] == "endswith"):
+        if t[0] == "call" and t[1][0] == "attr" and t[1][2] == "endswith":
             ck.violated("C18.T2", f"{fk}:tag-comparison", f"open: the tag is compared by `{show(t, 140)}`; the 4 transmitted bytes are the "
                         "FIRST four of the 16-byte Poly1305 tag, the comparison must be computed.startswith(expected)", loc)
             continue
-        if not (t[0] == "call" and t[1][0] == "attr" and t[1][2] == "startswith" and len(t[2]) == 1 and not t[3]):
+        form = _tag_comparison(t)
+        if form is None:
             ck.unknown("C18.T2", f"open: unrecognised tag comparison {show(t, 120)}", loc)
             continue
-        tag_t, exp_t = t[1][1], t[2][0]
-        pass_edges += ctx.edges(cfg, n, "T")
-        fail_edges += ctx.edges(cfg, n, "F")
+        tag_t, exp_t, lab = form
+        pass_edges += ctx.edges(cfg, n, lab)
+        fail_edges += ctx.edges(cfg, n, "F" if lab == "T" else "T")
         # expected tag = last 4 bytes of a parameter
         sl = _slice_of(exp_t)
         ok = sl is not None and sl[0][0] == "param" and sl[1] == -SPEC.TAG_BYTES and sl[2] is None
@@ -697,7 +739,8 @@ def _t2(ctx: Context) -> None:
                    "(a notification of another accessory under the same key would authenticate)", loc)
     # ---- where the key comes from
     sites += _key_writers(ctx)
-    ck.require_min("C18.T2", "authentication sites (open, decrypt, key object, call, key writers, derive closures)", sites, 9)
+    if roles is not None and droles is not None and p is not None:
+        ck.require_min("C18.T2", "authentication sites (open, decrypt, key object, call, key writers, derive closures)", sites, 11)
 
 
 def _attr_writers(ctx: Context, attr: str):
@@ -929,7 +972,7 @@ def _k1(ctx: Context) -> None:
     sites += _k1_routing(ctx)
     sites += _k1_plaintext(ctx)
     sites += _k1_from_bytes(ctx)
-    ck.require_min("C18.K1", "layout/routing sites (parser fields, routing, plaintext fields, format rows)", sites, 18)
+    ck.require_min("C18.K1", "layout/routing sites (parser fields, routing, plaintext fields, format rows)", sites, 24)
 
 
 def _type_gate(ctx: Context, cfg, want_base=None):
@@ -989,10 +1032,12 @@ def _k1_parser(ctx: Context) -> int:
     _judge(ck, "C18.K1", sl is not None and sl == (M, SPEC.PAYLOAD_START, None), [pt], f"notification: encrypted payload = bytes {SPEC.PAYLOAD_START}..",
            f"{fk}:field:encrypted_payload", f"notification parser: encrypted_payload is {show(pt, 100)}, HAP-BLE says bytes [{SPEC.PAYLOAD_START}:]", loc)
     it = kw.get("id", missing)
+    asl = _slice_of(at) if at[0] == "sub" else None
+    leaf = at if asl is not None and asl[0] == M and asl[2] is not None and asl[2] - asl[1] == hi - lo and asl[1] >= 0 else adv
     try:
-        got = [_eval(it, {adv: v}, {}) for v in ID_VECTORS]
+        got = [_eval(it, {leaf: v}, {}) for v in ID_VECTORS]
         want = [":".join(f"{b:02x}" for b in v) for v in ID_VECTORS]
-        ck.check("C18.K1", got == want, "notification: id = lower-case colon-separated hex of the advertising identifier bytes (term evaluated on 3 vectors)",
+        ck.check("C18.K1", got == want, "notification: id = lower-case colon-separated hex of the very bytes handed on as advertising identifier (term evaluated on 3 vectors)",
                  f"{fk}:field:id", f"notification parser: for advertising id {ID_VECTORS[0].hex()} the id is {got[0]!r}, pairings are keyed by {want[0]!r}", loc)
     except _NoEval as e:
         ck.unknown("C18.K1", f"notification parser: id term outside the evaluable family ({e}): {show(it, 140)}", loc)
@@ -1022,7 +1067,9 @@ def _k1_routing(ctx: Context) -> int:
     _pp, pbases = _type_gate(ctx, pcfg)
     if pbases and pbases[0][0] == "call" and pbases[0][1][0] == "attr" and pbases[0][1][1][0] == "param" and pbases[0][1][1][1] in pf.pos_params:
         md_idx = pf.pos_params.index(pbases[0][1][1][1])
-    if b is None or md_idx is None or md_idx not in b or not bases:
+    if not bases or not pbases:
+        pass  # a missing type test is reported by the must-pass queries
+    elif b is None or md_idx is None or md_idx not in b:
         ck.unknown("C18.K1", "_device_detected: cannot relate the type-tested bytes to the parser's argument", ctx.loc(f, pn))
     else:
         mt = strip_sites(T.of(cfg, pn, b[md_idx]))
